@@ -1553,7 +1553,7 @@ theorem Listed.drop {D : List Nat} {st : St} {a : Nat} (l : Listed (a :: D) st) 
 theorem Listed.mono {D D' : List Nat} {st : St} (l : Listed D st) (h : ∀ x ∈ D, x ∈ D') : Listed D' st :=
   fun hok hal a ha hl => ⟨fun ht => ((l hok hal a ha hl).1 ht).imp id (h a), fun ht => ((l hok hal a ha hl).2 ht).imp id (h a)⟩
 
-theorem Listed.of_not_ok {D D' : List Nat} {st : St} (h : st.isOk = false) : Listed D' st :=
+theorem Listed.of_not_ok {D : List Nat} {st : St} (h : st.isOk = false) : Listed D st :=
   fun hok => by rw [h] at hok; cases hok
 
 theorem Gone.of_r2 {st st' : St} (r : R2 [] st st') (q : Q st st') (k : K st) (g : Gone st) : Gone st' := by
